@@ -164,12 +164,17 @@ Seal(gens, rp, F, content) ==
 (* labelled sub-tree and content hash equality is equality of the          *)
 (* unlabelled content tree (model-checked on Merkle terms in MhlDirHash).  *)
 (***************************************************************************)
+\* One wrinkle of the definition: an empty directory hashes as the empty input, i.e. exactly like an
+\* empty file ("EMPTY"), in content and in structure; the signatures identify the two.
 Kids(dk, d, R, pats) == {p \in DOMAIN dk : Len(p) = Len(d) + 1 /\ Below(d, p) /\ ~Ign(R, p, pats)}
-SSig(dk, d, R, pats) == {<<Rel(d, p), dk[p]>> : p \in {q \in DOMAIN dk : Below(d, q) /\ ~Ign(R, q, pats)}}
+SSig(dk, d, R, pats) == {<<Rel(d, p), IF dk[p] = "EMPTY" THEN "DIR" ELSE dk[p]>> :
+                            p \in {q \in DOMAIN dk : Below(d, q) /\ ~Ign(R, q, pats)}}
 RECURSIVE CSig(_, _, _, _)
 CSig(dk, d, R, pats) ==
   LET K    == Kids(dk, d, R, pats)
-      T(k) == IF dk[k] = "DIR" THEN <<"d", CSig(dk, k, R, pats)>> ELSE <<"f", dk[k]>>
+      T(k) == IF dk[k] = "DIR"
+              THEN (IF Kids(dk, k, R, pats) = {} THEN <<"f", "EMPTY">> ELSE <<"d", CSig(dk, k, R, pats)>>)
+              ELSE <<"f", dk[k]>>
       TS   == {T(k) : k \in K}
   IN [t \in TS |-> Cardinality({k \in K : T(k) = t})]
 
@@ -319,9 +324,9 @@ DiffResult(hs, dk, R, P) ==
 (* directory and the root with every recorded entry of the owning history. *)
 (* A recorded hash stands for the snapshot its generation was made from.   *)
 (***************************************************************************)
-VerifyDHFormats(hs, R) ==
-  LET gens == GensOf(hs, R)
-      U == UNION {gens[i].root.fmts : i \in DOMAIN gens}
+\* formats computed: those of the root hashes of every loaded history (c4 when there is none)
+VerifyDHFormats(hs, H) ==
+  LET U == UNION {UNION {hs[h][i].root.fmts : i \in DOMAIN hs[h]} : h \in H \cap DOMAIN hs}
   IN  IF U = {} THEN {"c4"} ELSE U
 
 \* the patterns a recorded generation was hashed under are those of the run that wrote it:
@@ -338,7 +343,7 @@ DirRecords(hs, H, R, d) ==
 VerifyDHResult(hs, dk, R, P) ==
   LET eff   == EffPats(hs, R, P)
       H     == Visible(hs, dk, R)
-      F     == VerifyDHFormats(hs, R)
+      F     == VerifyDHFormats(hs, H)
       dirs  == {R} \cup {p \in DOMAIN dk : Below(R, p) /\ dk[p] = "DIR" /\ ~Ign(R, p, eff)}
       recF(h, i, d) == IF Rel(h, d) = Root THEN hs[h][i].root.fmts ELSE hs[h][i].dirs[Rel(h, d)].fmts
       same(h, i, d) ==
@@ -615,4 +620,25 @@ P_C19_InfoSF(pre, dk, op, ob) ==
     LET H == IF op.R = NoPath THEN NearestRoot(pre, dk, op.S) ELSE op.R
         r == InfoSFResult(pre, H, op.S)
     IN (op.R = NoPath \/ op.R = NearestRoot(pre, dk, op.S)) => (ob.exit = r.exit /\ (r.exit = 0 => ob.lines = r.lines))
+
+\* ---- C09 -------------------------------------------------------------------------------
+\* generations of history h that carry directory hashes, and whether the tree below h is what they saw
+DHGens(hs, h) == {i \in DOMAIN GensOf(hs, h) : hs[h][i].root.has}
+SameAsGen(hs, dk, h, i, R, eff) ==
+  LET g == hs[h][i] IN SSig(g.snap, h, g.croot, g.ceff) = SSig(dk, h, R, eff)
+P_C09_Identical(pre, dk, op, ob) ==
+  (op.op = "verifydh" /\ ~op.co)
+    => LET H == Visible(pre, dk, op.R) IN
+       (\A h \in H : \A i \in DHGens(pre, h) : SameAsGen(pre, dk, h, i, op.R, ob.eff)) => ob.exit = 0
+P_C09_Detects(pre, dk, op, ob) ==
+  (op.op = "verifydh" /\ ~op.co /\ op.h = "" /\ DHGens(pre, op.R) # {})
+    => ((\A i \in DHGens(pre, op.R) : ~SameAsGen(pre, dk, op.R, i, op.R, ob.eff)) => ob.exit = 12)
+\* named deviation Dev_F4b (known_findings.json): the exit rule needs a failure in *every* computed
+\* format, so a change can go unreported when the loaded histories do not all use the same formats.
+\* The model reproduces the rule; its own check of P_C09_Detects therefore excludes such states.
+UniformFormats(hs, dk, R) ==
+  LET H == Visible(hs, dk, R)
+      F == VerifyDHFormats(hs, H)
+  IN \A h \in H \cap DOMAIN hs : \A i \in DHGens(hs, h) : hs[h][i].root.fmts = F
+P_C09_NoInternal(op, ob) == op.op = "verifydh" => (~ob.internal /\ ob.exit \in {0, 12})
 =============================================================================
